@@ -121,7 +121,13 @@ static void ev_str (const char *k, const char *v)
 		}
 	fputc ('"', evf) ;
 }
-static void ev_end (void) { fputs ("}\n", evf) ; }
+/* fault bookkeeping visible to the validator : fe = number of callbacks whose answer a fault has changed so far, fa = a fault can still
+** fire, fk = its kind (only while a schedule is or was armed in this scenario) */
+static long long fault_eff ; static int fault_kind ; static int fault_armed (void) ;
+static void ev_end (void)
+{	if (fault_kind != 0) fprintf (evf, ",\"fe\":%lld,\"fa\":%d,\"fk\":%d", fault_eff, fault_armed (), fault_kind) ;
+	fputs ("}\n", evf) ;
+}
 static void ev_bytes (const char *k, const unsigned char *p, long long n)
 {	fprintf (evf, ",\"%s\":[", k) ;
 	for (long long i = 0 ; i < n ; i++) fprintf (evf, i ? ",%d" : "%d", p [i]) ;
@@ -166,10 +172,11 @@ typedef struct
 /* fault schedule : callback number (1-based, counted from arming) at which the fault starts */
 static long long io_count = 0 ;
 static long long fault_at = 0 ;	/* 0 = none */
-static int fault_kind = 0 ;		/* 1 zero, 2 short, 3 seekfail, 4 lenbig, 5 lensmall */
+/* fault_kind (declared above) : 1 zero, 2 short, 3 seekfail, 4 lenbig, 5 lensmall */
 static int fault_sticky = 0 ;
 static long long fault_hits = 0 ;
 
+static int fault_armed (void) { return fault_at != 0 && (fault_sticky || io_count < fault_at) ; }
 static int faulting (void)
 {	io_count++ ;
 	if (fault_at == 0) return 0 ;
@@ -188,13 +195,13 @@ static void mf_reserve (MEMFILE *mf, long long n)
 
 static sf_count_t v_len (void *u)
 {	VIOCTX *c = u ; int f = faulting () ;
-	if (f && fault_kind == 4) return c->mf->len + 1000 ;
-	if (f && fault_kind == 5) return c->mf->len / 2 ;
+	if (f && fault_kind == 4) { fault_eff++ ; return c->mf->len + 1000 ; }
+	if (f && fault_kind == 5) { fault_eff++ ; return c->mf->len / 2 ; }
 	return c->mf->len ;
 }
 static sf_count_t v_seek (sf_count_t off, int wh, void *u)
 {	VIOCTX *c = u ; int f = faulting () ;
-	if (f && fault_kind == 3) return -1 ;
+	if (f && fault_kind == 3) { fault_eff++ ; return -1 ; }
 	long long np = wh == SEEK_SET ? off : wh == SEEK_CUR ? c->pos + off : c->mf->len + off ;
 	if (np < 0) return -1 ;
 	c->pos = np ;
@@ -202,19 +209,19 @@ static sf_count_t v_seek (sf_count_t off, int wh, void *u)
 }
 static sf_count_t v_read (void *p, sf_count_t n, void *u)
 {	VIOCTX *c = u ; int f = faulting () ;
-	if (f && fault_kind == 1) return 0 ;
+	if (f && fault_kind == 1) { fault_eff++ ; return 0 ; }
 	long long av = c->mf->len - c->pos ;
 	if (av < 0) av = 0 ;
 	if (n > av) n = av ;
-	if (f && fault_kind == 2 && n > 1) n = n / 2 ;
+	if (f && fault_kind == 2 && n > 1) { fault_eff++ ; n = n / 2 ; }
 	if (n > 0) memcpy (p, c->mf->data + c->pos, n) ;
 	c->pos += n ;
 	return n ;
 }
 static sf_count_t v_write (const void *p, sf_count_t n, void *u)
 {	VIOCTX *c = u ; int f = faulting () ;
-	if (f && fault_kind == 1) return 0 ;
-	if (f && fault_kind == 2 && n > 1) n = n / 2 ;
+	if (f && fault_kind == 1) { fault_eff++ ; return 0 ; }
+	if (f && fault_kind == 2 && n > 1) { fault_eff++ ; n = n / 2 ; }
 	if (n <= 0) return 0 ;
 	mf_reserve (c->mf, c->pos + n) ;
 	memcpy (c->mf->data + c->pos, p, n) ;
@@ -502,6 +509,7 @@ static int cmd_id (const char *s)
 
 static int alarm_secs = 20 ;
 
+static int emb_notail = 0 ;
 static int parse_route (const char *r, long long *emb)
 {	*emb = 0 ;
 	if (!strcmp (r, "vio")) return R_VIO ;
@@ -509,6 +517,8 @@ static int parse_route (const char *r, long long *emb)
 	if (!strcmp (r, "fdk")) return R_FDK ;
 	if (!strcmp (r, "path")) return R_PATH ;
 	if (!strcmp (r, "pipe")) return R_PIPE ;
+	emb_notail = 0 ;
+	if (!strncmp (r, "embz", 4)) { *emb = strtoll (r + 4, NULL, 0) ; emb_notail = 1 ; return R_EMB ; }	/* embedded file is the last thing in the container */
 	if (!strncmp (r, "emb", 3)) { *emb = strtoll (r + 3, NULL, 0) ; return R_EMB ; }
 	fprintf (stderr, "sfdrive: bad route %s\n", r) ; exit (2) ;
 }
@@ -563,7 +573,7 @@ static void do_open (void)
 			break ;
 		case R_FD : case R_FDK : case R_EMB :
 		{	int fd = memfd_create ("sfd", 0) ;
-			H->emb_off = route == R_EMB ? emb : 0 ; H->emb_tail = route == R_EMB ? 37 : 0 ;
+			H->emb_off = route == R_EMB ? emb : 0 ; H->emb_tail = (route == R_EMB && !emb_notail) ? 37 : 0 ;
 			for (long long i = 0 ; i < H->emb_off ; i++) { unsigned char j = (unsigned char) (i * 31 + 7) ; write_all (fd, &j, 1) ; }
 			if (mode != SFM_WRITE) write_all (fd, mf->data, mf->len) ;
 			if (mode == SFM_READ) for (long long i = 0 ; i < H->emb_tail ; i++) { unsigned char j = (unsigned char) (i * 17 + 3) ; write_all (fd, &j, 1) ; }
@@ -824,7 +834,7 @@ static void iters_reset (void) { memset (iters, 0, sizeof (iters)) ; }
 
 static void do_fault (void)
 {	/* fault at kind sticky   (at = 0 disarms ; counting restarts) */
-	io_count = 0 ; fault_hits = 0 ;
+	io_count = 0 ; fault_hits = 0 ; fault_eff = 0 ;
 	fault_at = tokll (1) ;
 	const char *k = ntok > 2 ? toks [2] : "zero" ;
 	fault_kind = !strcmp (k, "zero") ? 1 : !strcmp (k, "short") ? 2 : !strcmp (k, "seekfail") ? 3 : !strcmp (k, "lenbig") ? 4 : !strcmp (k, "lensmall") ? 5 : 0 ;
@@ -894,7 +904,7 @@ int main (int argc, char **argv)
 			split (line) ;
 			scn_id = (int) tokll (1) ; seqno = 0 ; fmode = 0 ; nodata = 0 ;
 			scn_tag [0] = 0 ;
-			base_heap = heap_now () ; base_fds = count_fds () ; base_tmp = count_tmp () ; io_count = 0 ; fault_at = 0 ; fault_hits = 0 ;
+			base_heap = heap_now () ; base_fds = count_fds () ; base_tmp = count_tmp () ; io_count = 0 ; fault_at = 0 ; fault_hits = 0 ; fault_eff = 0 ; fault_kind = 0 ;
 			ev_begin ("reset", -1) ;
 			/* remaining tokens are key=value pairs copied into the event as cfg */
 			fprintf (evf, ",\"cfg\":{\"idx\":%d", idx) ;
